@@ -119,7 +119,7 @@ def step (d : DSt) (line : String) : DSt × Option String :=
     let marg := margOf d.lplan
     let wf := decide (∀ x ∈ d.lplan, StageWF x.cfg x.s0)
     (d, some (s!"TIME lat={if decide (PlanLatOK true d.lplan) then 2 else if decide (PlanLatOK false d.lplan) then 1 else 0} off={off.num}/{off.den} rate={rate.num}/{rate.den}" ++
-      s!" early={if wf && decide (PlanEarlyOK d.lplan) then 1 else 0} marg={marg.num}/{marg.den} post={if decide (rate / 2 ≤ 1 + off + marg) then 1 else 0}"))
+      s!" early={if wf && decide (PlanEarlyOK d.lplan) then 1 else 0} earlyg={if wf && decide (PlanEarlyGen d.lplan) then 1 else 0} marg={marg.num}/{marg.den} post={if decide (rate / 2 ≤ 1 + off + marg) then 1 else 0}"))
   | ["cr.delay"] => (d, some s!"DELAY {delayBits d}")
   | "cr.proc" :: hasIn :: flushReq :: useIdone :: ilen0 :: olen :: script =>
     match d.api.process (num d) d.fuel (hasIn == "1") (flushReq == "1") (useIdone == "1")
